@@ -921,12 +921,13 @@ func TestVerifC04(t *testing.T) {
 			}
 		}
 	}
-	// (c) numeric sub-enumeration: strings over 0 1 9 . e E - + x up to length 7, and digit strings
+	// (c) numeric sub-enumeration: strings over 0 1 9 . e E - + x up to length 6, over 0 1 x X a F g z - up to
+	// length 5, and digit strings
 	// over {1,2,9} up to length 11 (reaches the 32-bit boundary), with optional sign
 	for _, sub := range []struct {
 		alpha string
 		max   int
-	}{{"019.eE-+x", 6}, {"129", 11}} {
+	}{{"019.eE-+x", 6}, {"129", 11}, {"01xXaFgz-", 5}} { // the third one: hexadecimal spellings (prefix and digits in both letter cases)
 		ka := int64(len(sub.alpha))
 		for l := 1; l <= sub.max; l++ {
 			total := int64(1)
